@@ -16,6 +16,7 @@
     an abstract [idx_spec] hypothesis are kept as ..._under_idx_spec. *)
 From Coq Require Import ZArith Bool String List Reals.
 From Flocq Require Import Core BinarySingleNaN.
+Require NixV.Gen.GenAccess NixV.Access.AccessBridgeModels.
 Require Import NixV.Base.Prelude NixV.Base.F64 NixV.Base.F64Facts NixV.Gen.GenDimensions NixV.Axis.AxisSpec
                NixV.Axis.RangeModel NixV.Axis.SampledProofs NixV.Data.NDIndex NixV.Data.NDArr
                NixV.Access.SliceSwitches NixV.Access.View NixV.Access.Slice NixV.Access.SliceSpec
@@ -457,6 +458,13 @@ Example C17_view_examples :
   view_read repaired w5_15 a20 [2] [9] = Err oob.
 Proof. exact view_repaired_examples. Qed.
 Print Assumptions C17_view_examples.
+
+(** * The window test is the code regenerated from src/util/dataAccess.cpp on this run *)
+Theorem C17_window_test_is_generated : forall B extent pos cnt,
+  SliceSwitches.extent_check_wraps B = false -> (List.length extent < 200)%nat ->
+  Slice.position_and_extent_in_data B extent pos cnt = NixV.Gen.GenAccess.positionAndExtentInData pos cnt extent.
+Proof. exact NixV.Access.AccessBridgeModels.slice_extent_test_is_generated. Qed.
+Print Assumptions C17_window_test_is_generated.
 
 (** * The library under test has the repaired behaviour (the patches landed as 08a7783, 956fa36, cf8bb07); this
     theorem breaks if the model driver is switched back to a defective behaviour *)
